@@ -60,6 +60,18 @@ partial def exprLeafCount : Expr → Nat
     which at least two become private — the first removal may collapse the tree's root by
     copying, after which further removals edit a detached copy and the values stay shared -/
 def kfC16 (s : Stmt) : String :=
+  -- nested property statements count as one value of the (complex) property tree; the simple
+  -- and the complex property tree are separate trees, so they are counted separately
+  let nst := s.parts.filterMap fun p => match p with | .nested h _ => some (h, Expr.leaf []) | _ => none
+  let cnt := fun (anns : List (Hdr × Expr)) =>
+    let isProp := fun (h : Hdr) => h.sym.isProperty || h.sym.name = str "Cex"
+    let compSfx := ((s.parts.filterMap fun p => match p with | .ann h _ _ => some h | _ => none).filter (fun h => !isProp h)).filterMap (fun h => h.sfx)
+    let props := anns.filter (fun a => isProp a.1)
+    let total := (props.map (fun a => exprLeafCount a.2)).foldl (· + ·) 0
+    let matched := ((props.filter fun a => (match a.1.sfx with | some x => compSfx.contains x | none => false)).map
+      (fun a => exprLeafCount a.2)).foldl (· + ·) 0
+    decide (total ≥ 3 && matched ≥ 2)
+  if cnt nst then "C16-removal-after-root-collapse" else
   let anns := s.parts.filterMap fun p => match p with | .ann h _ e => some (h, e) | _ => none
   let isProp := fun (h : Hdr) => h.sym.isProperty || h.sym.name = str "Cex"
   let compSfx := (anns.filter (fun a => !isProp a.1)).filterMap (fun a => a.1.sfx)
